@@ -218,7 +218,7 @@ def script_from_trace(world: dict, ops: list[dict]) -> dict:
     as_map = lambda m: {k: _val(v) for k, v in zip(("a", "b"), m) if v is not None}
     store = []
     if known and world["rec_o"]:
-        store.append({"label": "O", "state": as_map(world["rec_o"]["state"])})
+        store.append({"label": "O", "state": as_map(world["rec_o"]["state"]), "ttl_pct": max(1, min(100, int(world["rec_o"].get("ttl", 100))))})
     if world["rec_x"]:
         store.append({"label": "X", "state": as_map(world["rec_x"]["state"])})
     pre = []
